@@ -19,8 +19,8 @@ frames of a truncated binary"):
                     ftsec = self.file_bin.stat().st_size // (self.dtype.itemsize * self.nc) / self.fs
                     if self.meta is not None:
                         if not self.ignore_warnings:
-                            _logger.warning(f"... expected {self.meta['fileSizeBytes']}, actual {st_size} ..."
-                                            f"... expected {self.meta['fileTimeSecs']}, actual {ftsec} ...")
+                            _logger.warning(f"... expected {self.meta.get('fileSizeBytes')}, actual {st_size} ..."
+                                            f"... expected {self.meta.get('fileTimeSecs')}, actual {ftsec} ...")
                         self.meta["fileTimeSecs"] = ftsec
                 self._raw = np.memmap(sglx_file, dtype=self.dtype, mode="r", shape=(self.ns, self.nc))
         shape = (self.ns, self.nc)
@@ -34,8 +34,10 @@ frames of a truncated binary"):
 
 A `.meta` file written by a recording that has not finished (the repository's own fixture
 `sampleNP2.4_4shanks_while_acquiring_incomplete.ap.meta`) has neither `fileTimeSecs` nor `fileSizeBytes`:
-`self.meta.get("fileTimeSecs")` is then `None` (`None * fs` raises `TypeError`) and the subscripts inside the warning's
-f-string raise `KeyError`.  The model keeps both facts (`fileTimeSecs : Option T`, `hasFileSizeBytes`).
+`self.meta.get("fileTimeSecs")` is then `None` and `None * fs` raises `TypeError` in `Reader.ns` (the offline reader;
+`OnlineReader.ns` does not look at it).  The model keeps that fact (`fileTimeSecs : Option T`).  The warning text uses
+`.get` for both keys (since the `fix:` commit "opening a recording still in progress does not fail on the size warning"),
+so neither the warning nor `ignore_warnings` nor the presence of `fileSizeBytes` influences the outcome; they are not modelled.
 
 `np.memmap(mode="r", shape=(ns, nc))` ends in `mmap.mmap(fileno, ns*nc*itemsize, ACCESS_READ)`, which raises
 `ValueError("cannot mmap an empty file")` for an empty file mapped with length 0 and
@@ -73,15 +75,13 @@ inductive Err where
   | mmapTooLong
   /-- `TypeError: unsupported operand type(s) for *: 'NoneType' and 'float'` (`fileTimeSecs` absent) -/
   | typeError
-  /-- `KeyError` raised while formatting the warning (`fileSizeBytes` / `fileTimeSecs` absent) -/
-  | keyError
   deriving DecidableEq, Repr
 
 /-- The part of the reader's state the sample count depends on: either the parsed `.meta` file
-(`nSavedChans`, sampling rate, `fileTimeSecs` when the key is present, whether `fileSizeBytes` is present) or, without a `.meta` file, the fixed attributes
+(`nSavedChans`, sampling rate, `fileTimeSecs` when the key is present) or, without a `.meta` file, the fixed attributes
 `_nc, _ns, _fs = int(nc), int(ns), int(fs)`. -/
 inductive Hdr (T : Type) where
-  | ofMeta (nc : Nat) (fs : T) (fileTimeSecs : Option T) (hasFileSizeBytes : Bool)
+  | ofMeta (nc : Nat) (fs : T) (fileTimeSecs : Option T)
   | flat (nc ns fs : Nat)
 
 /-- Offline `Reader` or `OnlineReader` (which overrides `ns` only). -/
@@ -93,18 +93,18 @@ variable {T : Type}
 
 /-- `Reader.nc` -/
 def Hdr.nc : Hdr T → Nat
-  | .ofMeta nc _ _ _ => nc
+  | .ofMeta nc _ _ => nc
   | .flat nc _ _ => nc
 
 /-- `Reader.fs` (an `int` attribute is converted when it meets a float operand) -/
 def Hdr.fs (A : Arith T) : Hdr T → T
-  | .ofMeta _ fs _ _ => fs
+  | .ofMeta _ fs _ => fs
   | .flat _ _ fs => A.ofNat fs
 
 /-- `Reader.ns`: `self._ns` without meta data, else `int(np.round(self.meta.get("fileTimeSecs") * self.fs))`. -/
 def Hdr.nsOffline (A : Arith T) : Hdr T → Except Err Nat
-  | .ofMeta _ fs (some fts) _ => .ok (A.rint (A.mul fts fs))
-  | .ofMeta _ _ none _ => .error .typeError
+  | .ofMeta _ fs (some fts) => .ok (A.rint (A.mul fts fs))
+  | .ofMeta _ _ none => .error .typeError
   | .flat _ ns _ => .ok ns
 
 /-- The number of complete sample frames physically present: `st_size // (itemsize * nc)`. -/
@@ -131,23 +131,11 @@ def memmap (bytes rows nc itemsize : Nat) : Except Err Unit :=
 /-- `self.meta["fileTimeSecs"] = ftsec` (only `if self.meta is not None`). -/
 def Hdr.setFileTimeSecs (h : Hdr T) (ftsec : T) : Hdr T :=
   match h with
-  | .ofMeta nc fs _ hs => .ofMeta nc fs (some ftsec) hs
+  | .ofMeta nc fs _ => .ofMeta nc fs (some ftsec)
   | .flat nc ns fs => .flat nc ns fs
 
-/-- The `_logger.warning(f"…")` of the uncompressed branch: its f-string subscripts `self.meta['fileSizeBytes']` and
-`self.meta['fileTimeSecs']` (only `if self.meta is not None` and `if not self.ignore_warnings`). -/
-def Hdr.warnBin (h : Hdr T) (ignoreWarnings : Bool) : Except Err Unit :=
-  match h with
-  | .ofMeta _ _ fts hs =>
-    if ignoreWarnings then .ok ()
-    else if hs = false then .error .keyError
-    else if fts.isNone then .error .keyError
-    else .ok ()
-  | .flat _ _ _ => .ok ()
-
-/-- The uncompressed branch of `Reader.open` on a file of `bytes` bytes; returns the header afterwards.
-`iw` is the constructor argument `ignore_warnings`. -/
-def openBin (A : Arith T) (k : Kind) (iw : Bool) (h : Hdr T) (itemsize bytes : Nat) : Except Err (Hdr T) := do
+/-- The uncompressed branch of `Reader.open` on a file of `bytes` bytes; returns the header afterwards. -/
+def openBin (A : Arith T) (k : Kind) (h : Hdr T) (itemsize bytes : Nat) : Except Err (Hdr T) := do
   let ns ← nsOf A k h itemsize bytes
   -- if self.nc * self.ns * self.dtype.itemsize != self.nbytes:
   let h' ←
@@ -155,9 +143,7 @@ def openBin (A : Arith T) (k : Kind) (iw : Bool) (h : Hdr T) (itemsize bytes : N
       -- ftsec = st_size // (itemsize * nc) / fs
       if itemsize * h.nc = 0 then .error .zeroDivision
       else if A.isZero (h.fs A) then .error .zeroDivision
-      else do
-        h.warnBin iw
-        pure (h.setFileTimeSecs (A.div (A.ofNat (framesOnDisk bytes h.nc itemsize)) (h.fs A)))
+      else .ok (h.setFileTimeSecs (A.div (A.ofNat (framesOnDisk bytes h.nc itemsize)) (h.fs A)))
     else .ok h
   -- self._raw = np.memmap(..., shape=(self.ns, self.nc))      (ns is re-evaluated on the new meta data)
   let ns' ← nsOf A k h' itemsize bytes
@@ -184,7 +170,7 @@ def rl (A : Arith T) (k : Kind) (h : Hdr T) (itemsize bytes : Nat) : Except Err 
 
 /-- `fileTimeSecs` of the meta data (none without meta data). -/
 def Hdr.fileTimeSecs? : Hdr T → Option T
-  | .ofMeta _ _ fts _ => fts
+  | .ofMeta _ _ fts => fts
   | .flat _ _ _ => none
 
 /-! ### Values: a C-ordered `(rows, nc)` view of the file's samples -/
@@ -204,16 +190,14 @@ def exposed (file : List Int) (rows nc : Nat) : List (List Int) :=
 /-! ### The formula before the `fix:` commit (kept for `round_counterexample`) -/
 
 /-- `ftsec = st_size / itemsize / nc / fs` (float divisions, no floor), then `ns = int(round(ftsec * fs))`. -/
-def openBinOld (A : Arith T) (iw : Bool) (h : Hdr T) (itemsize bytes : Nat) : Except Err (Hdr T) := do
+def openBinOld (A : Arith T) (h : Hdr T) (itemsize bytes : Nat) : Except Err (Hdr T) := do
   let ns ← h.nsOffline A
   let h' ←
     if h.nc * ns * itemsize ≠ bytes then
       if itemsize = 0 ∨ h.nc = 0 then .error .zeroDivision
       else if A.isZero (h.fs A) then .error .zeroDivision
-      else do
-        h.warnBin iw
-        pure (h.setFileTimeSecs
-          (A.div (A.div (A.div (A.ofNat bytes) (A.ofNat itemsize)) (A.ofNat h.nc)) (h.fs A)))
+      else .ok (h.setFileTimeSecs
+        (A.div (A.div (A.div (A.ofNat bytes) (A.ofNat itemsize)) (A.ofNat h.nc)) (h.fs A)))
     else .ok h
   let ns' ← h'.nsOffline A
   memmap bytes ns' h'.nc itemsize
